@@ -1,7 +1,10 @@
 import LazyDs.Model.Trace
+import LazyDs.Lemmas.RelIntersperse
 /-
   Helper lemmas for C08 (demand-driven evaluation) about the chunked-trace semantics of
-  `LazyDs/Model/Trace.lean`.  CORE LEAN ONLY.
+  `LazyDs/Model/Trace.lean`.  Core Lean; the facts about the order table of `intersperse`
+  (`order_ok`, `order_entries`, `order_length`) come from `LazyDs/Lemmas/RelIntersperse.lean`.
+  This file is not linked into the driver.
 -/
 namespace LazyDs.Trace
 
@@ -526,6 +529,11 @@ def stages : TPipe → List Nat
   | .slice _ p => stages p
   | .zip p q => stages p ++ stages q
   | .localShuffle _ _ _ p => stages p
+  | .catch _ p => stages p
+  | .reshuffle _ p => stages p
+  | .cache p => stages p
+  | .tile _ p => stages p
+  | .intersperse p q => stages p ++ stages q
 
 section Provenance
 variable (P : Call → Prop)
@@ -705,11 +713,55 @@ theorem all_log_local (bs : Nat) (cs : List (Log × Val)) (buf : List Val) (lg :
       · simpa only [fullLog_nil] using hll
     · exact ih _ _ _ h2 hll
 
+theorem all_log_tile (t : TStream) (h : ∀ c ∈ t.fullLog, P c) (r : Nat) : ∀ c ∈ (tileT t r).fullLog, P c := by
+  induction r with
+  | zero => simp [tileT]
+  | succ r ih => rw [tileT]; exact all_log_append P _ _ h ih
+
+/-- one step of the interleaving loop (the generated equations of `interT` are split by the shape of both parts) -/
+theorem interT_cons (o : OrdEntry) (rest : List OrdEntry) (ca : List (Log × Val)) (tla : Log) (ea : Option Err)
+    (cb : List (Log × Val)) (tlb : Log) (eb : Option Err) :
+    interT (o :: rest) ca tla ea cb tlb eb =
+      if o.d == 0 then
+        match ca with
+        | (lg, v) :: ca' => let t := interT rest ca' tla ea cb tlb eb; ⟨(lg, v) :: t.chunks, t.tail, t.err⟩
+        | [] => ⟨[], tla, some (match ea with | some er => er | none => .runtimeError)⟩
+      else
+        match cb with
+        | (lg, v) :: cb' => let t := interT rest ca tla ea cb' tlb eb; ⟨(lg, v) :: t.chunks, t.tail, t.err⟩
+        | [] => ⟨[], tlb, some (match eb with | some er => er | none => .runtimeError)⟩ := by
+  rw [interT.eq_def]
+  rfl
+
+theorem all_log_inter (order : List OrdEntry) (ca : List (Log × Val)) (tla : Log) (ea : Option Err)
+    (cb : List (Log × Val)) (tlb : Log) (eb : Option Err)
+    (ha : ∀ c ∈ ((ca.map (·.1)).flatten ++ tla), P c) (hb : ∀ c ∈ ((cb.map (·.1)).flatten ++ tlb), P c) :
+    ∀ c ∈ (interT order ca tla ea cb tlb eb).fullLog, P c := by
+  induction order generalizing ca cb with
+  | nil => simp [interT]
+  | cons o rest ih =>
+    rw [interT_cons]
+    split
+    · cases ca with
+      | nil => simpa only [fullLog_nil] using all_tail P ha
+      | cons a ra =>
+        obtain ⟨la, va⟩ := a
+        obtain ⟨h1, h2⟩ := all_cons_split P ha
+        simp only [fullLog_cons, fullLog_congr]
+        exact List.forall_mem_append.2 ⟨h1, ih ra cb h2 hb⟩
+    · cases cb with
+      | nil => simpa only [fullLog_nil] using all_tail P hb
+      | cons b rb =>
+        obtain ⟨lb, vb⟩ := b
+        obtain ⟨h1, h2⟩ := all_cons_split P hb
+        simp only [fullLog_cons, fullLog_congr]
+        exact List.forall_mem_append.2 ⟨h1, ih ca rb ha h2⟩
+
 end Provenance
 
-theorem all_getT_go (ρ : Env) (P : Call → Prop) (n : Nat) (p : TPipe) (i : Nat)
+theorem all_getT_go (ρ : Env) (P : Call → Prop) (n : Nat) (dl : Bool) (p : TPipe) (i : Nat)
     (hg : ∀ j, ∀ c ∈ (getT ρ p j).1, P c) (fuel t : Nat) (lg : Log) (acc : List Val) (hl : ∀ c ∈ lg, P c) :
-    ∀ c ∈ (getT.go ρ n p i t fuel lg acc).1, P c := by
+    ∀ c ∈ (getT.go ρ n dl p i t fuel lg acc).1, P c := by
   induction fuel generalizing t lg acc with
   | zero => rw [getT.go]; exact hl
   | succ fuel ih =>
@@ -740,6 +792,27 @@ theorem all_sliceT (ρ : Env) (P : Call → Prop) (p : TPipe) (hg : ∀ j, ∀ c
       simp only [fullLog_cons, fullLog_congr]
       exact List.forall_mem_append.2 ⟨hj, ih⟩
     | error er => simpa only [fullLog_nil] using hj
+
+theorem all_catchT (ρ : Env) (P : Call → Prop) (E : List Err) (p : TPipe) (hg : ∀ j, ∀ c ∈ (getT ρ p j).1, P c)
+    (sel : List Nat) (pending : Log) (hp : ∀ c ∈ pending, P c) :
+    ∀ c ∈ (catchT ρ E p sel pending).fullLog, P c := by
+  induction sel generalizing pending with
+  | nil => simpa [catchT] using hp
+  | cons j rest ih =>
+    rw [catchT]
+    have hj := hg j
+    rcases h : getT ρ p j with ⟨l, r⟩
+    rw [h] at hj
+    have hpl : ∀ c ∈ pending ++ l, P c := List.forall_mem_append.2 ⟨hp, hj⟩
+    cases r with
+    | ok v =>
+      simp only [fullLog_cons, fullLog_congr]
+      exact List.forall_mem_append.2 ⟨hpl, ih [] (by simp)⟩
+    | error er =>
+      simp only
+      split
+      · exact ih _ hpl
+      · simpa only [fullLog_nil] using hpl
 
 /-- every call of an iteration and of an index access belongs to a `map`/`filter` stage of the pipeline -/
 theorem provenance (ρ : Env) (p : TPipe) :
@@ -777,7 +850,7 @@ theorem provenance (ρ : Env) (p : TPipe) :
       exact all_log_batch _ n dl _ _ _ _ _ ih.1 (by simp)
     · intro i
       rw [getT]
-      exact all_getT_go ρ _ n p i ih.2 _ _ _ _ (by simp)
+      exact all_getT_go ρ _ n _ p i ih.2 _ _ _ _ (by simp)
   | unbatch p ih =>
     constructor
     · rw [iterT]
@@ -830,5 +903,304 @@ theorem provenance (ρ : Env) (p : TPipe) :
     · rw [iterT]
       exact all_log_local _ bs _ _ _ _ _ _ _ ih.1 (by simp)
     · intro i; rw [getT]; simp
+  | «catch» E p ih =>
+    constructor
+    · rw [iterT]
+      cases lenT p with
+      | none => simp
+      | some n => exact all_catchT ρ _ E p ih.2 _ [] (by simp)
+    · intro i; rw [getT]; simp
+  | reshuffle perm p ih =>
+    constructor
+    · rw [iterT]
+      exact all_sliceT ρ _ p ih.2 perm
+    · intro i; rw [getT]; simp
+  | cache p ih =>
+    constructor
+    · rw [iterT]
+      cases lenT p with
+      | none => simp
+      | some n => exact all_sliceT ρ _ p ih.2 _
+    · intro i; rw [getT]; exact ih.2 i
+  | tile r p ih =>
+    constructor
+    · rw [iterT]
+      exact all_log_tile _ _ ih.1 r
+    · intro i
+      rw [getT]
+      cases lenT p with
+      | none => simp
+      | some n =>
+        simp only
+        split
+        · exact ih.2 _
+        · simp
+  | intersperse p q ihp ihq =>
+    constructor
+    · rw [iterT]
+      cases lenT p with
+      | none => simp
+      | some n₁ =>
+        cases lenT q with
+        | none => simp
+        | some n₂ =>
+          exact all_log_inter _ _ _ _ _ _ _ _ (fun c hc => by simp [stages, ihp.1 c hc])
+            (fun c hc => by simp [stages, ihq.1 c hc])
+    · intro i
+      rw [getT]
+      cases lenT p with
+      | none => simp
+      | some n₁ =>
+        cases lenT q with
+        | none => simp
+        | some n₂ =>
+          simp only
+          cases (intersperseOrder [n₁, n₂])[i]? with
+          | none => simp
+          | some o =>
+            simp only
+            split
+            · exact fun c hc => by simp [stages, ihp.2 _ c hc]
+            · exact fun c hc => by simp [stages, ihq.2 _ c hc]
+
+
+/-! ### `catch`: the index-driven walk that skips caught failures -/
+
+/-- `ds[j]` fails with an exception that `except E` does not catch -/
+def uncaught (ρ : Env) (E : List Err) (p : TPipe) (j : Nat) : Bool :=
+  match (getT ρ p j).2 with
+  | .error e => !e.isAny E
+  | .ok _ => false
+
+/-- the value of `ds[j]` if it succeeds -/
+def okVal (ρ : Env) (p : TPipe) (j : Nat) : Option Val :=
+  match (getT ρ p j).2 with
+  | .ok v => some v
+  | .error _ => none
+
+/-- the exception of `ds[j]` if it fails -/
+def errOf (ρ : Env) (p : TPipe) (j : Nat) : Option Err :=
+  match (getT ρ p j).2 with
+  | .ok _ => none
+  | .error e => some e
+
+/-- the number of positions of `sel` before the first uncaught failure -/
+def catchStop (ρ : Env) (E : List Err) (p : TPipe) (sel : List Nat) : Nat :=
+  (sel.takeWhile (fun j => !uncaught ρ E p j)).length
+
+theorem catchStop_le (ρ : Env) (E : List Err) (p : TPipe) (sel : List Nat) : catchStop ρ E p sel ≤ sel.length :=
+  (List.takeWhile_sublist _).length_le
+
+theorem catchStop_before (ρ : Env) (E : List Err) (p : TPipe) (sel : List Nat) :
+    ∀ j ∈ sel.take (catchStop ρ E p sel), uncaught ρ E p j = false := by
+  induction sel with
+  | nil => simp
+  | cons x rest ih =>
+    unfold catchStop at ih ⊢
+    rw [List.takeWhile_cons]
+    cases hx : uncaught ρ E p x with
+    | true => simp
+    | false =>
+      simp only [Bool.not_false, if_true, List.length_cons, List.take_succ_cons, List.mem_cons]
+      rintro j (rfl | hj)
+      · exact hx
+      · exact ih j hj
+
+theorem catchStop_at (ρ : Env) (E : List Err) (p : TPipe) (sel : List Nat) (j : Nat)
+    (h : sel[catchStop ρ E p sel]? = some j) : uncaught ρ E p j = true := by
+  induction sel with
+  | nil => simp at h
+  | cons x rest ih =>
+    unfold catchStop at ih h
+    rw [List.takeWhile_cons] at h
+    cases hx : uncaught ρ E p x with
+    | true =>
+      rw [hx] at h
+      simp at h
+      rw [← h]; exact hx
+    | false =>
+      rw [hx] at h
+      simp only [Bool.not_false, if_true, List.length_cons, List.getElem?_cons_succ] at h
+      exact ih h
+
+/-- the complete description of the catch walk over the positions `sel`, with `m = catchStop … sel`:
+    it yields the successes among the first `m` positions, has evaluated exactly the positions `0 … m`
+    (each once, in order) and ends with the exception of position `m`, if there is one -/
+theorem catch_walk (ρ : Env) (E : List Err) (p : TPipe) (sel : List Nat) (pending : Log) :
+    (catchT ρ E p sel pending).chunks.map (·.2) = (sel.take (catchStop ρ E p sel)).filterMap (okVal ρ p) ∧
+    (catchT ρ E p sel pending).fullLog =
+      pending ++ ((sel.take (catchStop ρ E p sel + 1)).map (fun j => (getT ρ p j).1)).flatten ∧
+    (catchT ρ E p sel pending).err = (sel[catchStop ρ E p sel]?).bind (errOf ρ p) := by
+  induction sel generalizing pending with
+  | nil => simp [catchT, catchStop]
+  | cons j rest ih =>
+    rw [catchT]
+    unfold catchStop at ih ⊢
+    rw [List.takeWhile_cons]
+    rcases h : getT ρ p j with ⟨lg, r⟩
+    cases r with
+    | ok v =>
+      have hu : uncaught ρ E p j = false := by simp [uncaught, h]
+      have hv : okVal ρ p j = some v := by simp [okVal, h]
+      obtain ⟨h1, h2, h3⟩ := ih []
+      simp [hu, hv, h1, h2, h3, h, fullLog_congr]
+    | error e =>
+      by_cases hc : e.isAny E = true
+      · have hu : uncaught ρ E p j = false := by simp [uncaught, h, hc]
+        have hv : okVal ρ p j = none := by simp [okVal, h]
+        obtain ⟨h1, h2, h3⟩ := ih (pending ++ lg)
+        simp [hu, hv, h1, h2, h3, h, hc]
+      · have hu : uncaught ρ E p j = true := by simp [uncaught, h, hc]
+        have he : errOf ρ p j = some e := by simp [errOf, h]
+        simp [hu, he, h, hc]
+
+/-- no look-ahead: when the consumer holds `k` results the walk has evaluated a prefix `sel.take m` of the
+    positions (i), the successes among them are exactly the results handed out (ii), and the prefix ends with a
+    success (iii) — the position of the last result; nothing after it has been touched -/
+theorem catch_no_lookahead_gen (ρ : Env) (E : List Err) (p : TPipe) (sel : List Nat) (pending : Log) (k : Nat) :
+    ∃ m, m ≤ sel.length ∧
+      (catchT ρ E p sel pending).logAfter k =
+        (if m = 0 then [] else pending) ++ ((sel.take m).map (fun j => (getT ρ p j).1)).flatten ∧
+      (sel.take m).filterMap (okVal ρ p) = ((catchT ρ E p sel pending).chunks.take k).map (·.2) ∧
+      (m = 0 ∨ ∃ j, sel[m - 1]? = some j ∧ (okVal ρ p j).isSome = true) := by
+  induction sel generalizing pending k with
+  | nil => exact ⟨0, by simp [catchT]⟩
+  | cons j rest ih =>
+    cases k with
+    | zero => exact ⟨0, by simp⟩
+    | succ k =>
+      rw [catchT]
+      rcases h : getT ρ p j with ⟨lg, r⟩
+      cases r with
+      | ok v =>
+        have hv : okVal ρ p j = some v := by simp [okVal, h]
+        obtain ⟨m, hm, h1, h2, h3⟩ := ih [] k
+        refine ⟨m + 1, by simpa using hm, ?_, ?_, ?_⟩
+        · simp [h1, h]
+        · simp [hv, h2]
+        · right
+          cases m with
+          | zero => exact ⟨j, by simp, by simp [hv]⟩
+          | succ m =>
+            rcases h3 with h3 | h3
+            · omega
+            · simpa using h3
+      | error e =>
+        simp only
+        split
+        · have hv : okVal ρ p j = none := by simp [okVal, h]
+          obtain ⟨m, hm, h1, h2, h3⟩ := ih (pending ++ lg) (k + 1)
+          cases m with
+          | zero => exact ⟨0, by simp, by simpa using h1, by simpa using h2, Or.inl rfl⟩
+          | succ m =>
+            refine ⟨m + 2, by simpa using hm, ?_, ?_, ?_⟩
+            · simpa [h] using h1
+            · simpa [hv] using h2
+            · right
+              rcases h3 with h3 | h3
+              · omega
+              · simpa using h3
+        · exact ⟨0, by simp⟩
+
+/-! ### `tile`: `r` passes over the input -/
+
+theorem tileT_one (t : TStream) : tileT t 1 = t := by
+  obtain ⟨cs, tl, e⟩ := t
+  cases e <;> simp [tileT, appendT]
+
+/-- a pass that fails ends the whole iteration -/
+theorem tileT_err (t : TStream) (e : Err) (h : t.err = some e) (r : Nat) : tileT t (r + 1) = t := by
+  rw [tileT, appendT, h]
+
+theorem erase_tile (t : TStream) (r : Nat) :
+    (tileT t r).erase = (List.replicate r t.erase).foldr Stream.append Stream.nil := by
+  induction r with
+  | zero => rfl
+  | succ r ih => rw [tileT, erase_append, ih, List.replicate_succ, List.foldr_cons]
+
+theorem fullLog_append (a b : TStream) (h : a.err = none) : (appendT a b).fullLog = a.fullLog ++ b.fullLog := by
+  unfold appendT
+  rw [h]
+  simp only
+  cases hb : b.chunks with
+  | nil => simp [TStream.fullLog, hb]
+  | cons c rest => obtain ⟨lg, v⟩ := c; simp [TStream.fullLog, hb]
+
+/-- every pass re-executes the calls of the input (the input is iterated afresh each time) -/
+theorem fullLog_tile (t : TStream) (h : t.err = none) (r : Nat) :
+    (tileT t r).fullLog = (List.replicate r t.fullLog).flatten := by
+  induction r with
+  | zero => simp [tileT]
+  | succ r ih => rw [tileT, fullLog_append _ _ h, ih, List.replicate_succ, List.flatten_cons]
+
+/-! ### `intersperse` -/
+
+/-- the interleaving loop from the iterator state "`pa` chunks of the first part and `pb` chunks of the second part
+    are consumed", along a piece `suf` of a table whose entries carry the right positions: every entry finds its
+    chunk, the loop ends normally and no tail is executed -/
+theorem inter_spec (A B : List (Log × Val)) (tla tlb : Log) (ea eb : Option Err) (suf : List OrdEntry) (pa pb : Nat)
+    (hd : ∀ t o, suf[t]? = some o →
+      (o.d = 0 ∧ o.j = pa + ordCount (suf.take t) 0 ∧ o.j < A.length) ∨
+      (o.d = 1 ∧ o.j = pb + ordCount (suf.take t) 1 ∧ o.j < B.length)) :
+    (interT suf (A.drop pa) tla ea (B.drop pb) tlb eb).chunks.map some =
+        suf.map (fun o => if o.d == 0 then A[o.j]? else B[o.j]?) ∧
+    (interT suf (A.drop pa) tla ea (B.drop pb) tlb eb).tail = [] ∧
+    (interT suf (A.drop pa) tla ea (B.drop pb) tlb eb).err = none := by
+  induction suf generalizing pa pb with
+  | nil => simp [interT]
+  | cons o rest ih =>
+    rw [interT_cons]
+    rcases hd 0 o (by simp) with ⟨h0, hj, hlt⟩ | ⟨h0, hj, hlt⟩
+    · simp only [List.take_zero, ordCount, List.countP_nil, Nat.add_zero] at hj
+      have hlt' : pa < A.length := by omega
+      obtain ⟨h1, h2, h3⟩ := ih (pa + 1) pb (by
+        intro t o' ho'
+        rcases hd (t + 1) o' (by simpa using ho') with ⟨a1, a2, a3⟩ | ⟨a1, a2, a3⟩
+        · left
+          refine ⟨a1, ?_, a3⟩
+          simp only [List.take_succ_cons, ordCount, List.countP_cons, h0, beq_self_eq_true, if_true] at a2
+          simp only [ordCount]; omega
+        · right
+          refine ⟨a1, ?_, a3⟩
+          simpa [ordCount, List.countP_cons, h0] using a2)
+      rw [List.drop_eq_getElem_cons hlt']
+      simp [h0, h1, h2, h3, hj, List.getElem?_eq_getElem hlt']
+    · simp only [List.take_zero, ordCount, List.countP_nil, Nat.add_zero] at hj
+      have hlt' : pb < B.length := by omega
+      obtain ⟨h1, h2, h3⟩ := ih pa (pb + 1) (by
+        intro t o' ho'
+        rcases hd (t + 1) o' (by simpa using ho') with ⟨a1, a2, a3⟩ | ⟨a1, a2, a3⟩
+        · left
+          refine ⟨a1, ?_, a3⟩
+          simpa [ordCount, List.countP_cons, h0] using a2
+        · right
+          refine ⟨a1, ?_, a3⟩
+          simp only [List.take_succ_cons, ordCount, List.countP_cons, h0, beq_self_eq_true, if_true] at a2
+          simp only [ordCount]; omega)
+      rw [List.drop_eq_getElem_cons hlt']
+      simp [h0, h1, h2, h3, hj, List.getElem?_eq_getElem hlt']
+
+/-- along the table of two parts with `n₁` and `n₂` examples whose traced streams have that many chunks -/
+theorem inter_order (A B : List (Log × Val)) (tla tlb : Log) (ea eb : Option Err) :
+    (interT (intersperseOrder [A.length, B.length]) A tla ea B tlb eb).chunks.map some =
+        (intersperseOrder [A.length, B.length]).map (fun o => if o.d == 0 then A[o.j]? else B[o.j]?) ∧
+    (interT (intersperseOrder [A.length, B.length]) A tla ea B tlb eb).tail = [] ∧
+    (interT (intersperseOrder [A.length, B.length]) A tla ea B tlb eb).err = none := by
+  have := inter_spec A B tla tlb ea eb (intersperseOrder [A.length, B.length]) 0 0 (by
+    intro t o ho
+    have hok := order_ok [A.length, B.length] t o ho
+    obtain ⟨hlt, hj, _, _⟩ := order_entries [A.length, B.length] o (List.mem_of_getElem? ho)
+    simp only [List.length_cons, List.length_nil] at hlt
+    have : o.d = 0 ∨ o.d = 1 := by omega
+    rcases this with h0 | h0
+    · left
+      refine ⟨h0, ?_, ?_⟩
+      · rw [← hok, h0]; simp
+      · simpa [h0] using hj
+    · right
+      refine ⟨h0, ?_, ?_⟩
+      · rw [← hok, h0]; simp
+      · simpa [h0] using hj)
+  simpa using this
 
 end LazyDs.Trace
